@@ -555,7 +555,9 @@ class LineCoverageInstrumentation(python3_10.LineCoverageInstrumentation):
     instructions_generator = Python311InstrumentationInstructionsGenerator
 
     def should_instrument_line(self, instr: Instr, lineno: int | _UNSET | None) -> bool:  # noqa: D102
-        return instr.lineno != lineno and instr.name != "RESUME"
+        # Instructions without a location (e.g., the generator prologue or the cleanup code
+        # of exception handlers) do not belong to any line of the source code.
+        return isinstance(instr.lineno, int) and instr.lineno != lineno and instr.name != "RESUME"
 
 
 class CheckedCoverageInstrumentation(python3_10.CheckedCoverageInstrumentation):
